@@ -110,6 +110,13 @@ theorem stepPc_locks (H : Bytes → Bytes) (tid : Tid) (sh : Shared) (pc : Pc)
     split
     · simp [holdsIntents, holdsState] at *; exact ⟨hi, hs⟩
     · split <;> (simp [holdsIntents, holdsState] at *; exact ⟨hi, hs⟩)
+  | rdLookupR k s' e' =>
+    simp only [stepPc]
+    split
+    · simp [holdsIntents, holdsState] at *; exact ⟨hi, hs⟩
+    · split
+      · simp [holdsIntents, holdsState] at *; exact ⟨hi, hs⟩
+      · split <;> (simp [holdsIntents, holdsState] at *; exact ⟨hi, hs⟩)
   | rdOpened r => simp [stepPc, holdsIntents, holdsState] at *; exact ⟨hi, hs⟩
   | orIntents hs' del skip =>
     simp only [stepPc]
@@ -134,9 +141,16 @@ end CasModel.Conc
 
 namespace CasModel.Conc
 
-theorem startOp_holds (H : Bytes → Bytes) (op : COp) :
-    holdsIntents (startOp H op) = false ∧ holdsState (startOp H op) = false := by
-  cases op <;> simp [startOp, holdsIntents, holdsState]
+theorem startOp_holds (H : Bytes → Bytes) (sh : Shared) (op : COp) :
+    holdsIntents (startOp H sh op).1 = false ∧ holdsState (startOp H sh op).1 = false := by
+  cases op with
+  | getRange k s' e' =>
+    simp only [startOp]
+    cases kLookup sh.idx.map k with
+    | none => simp [holdsIntents, holdsState]
+    | some item =>
+      by_cases c : s' ≥ item.size <;> simp [c, holdsIntents, holdsState]
+  | _ => simp [startOp, holdsIntents, holdsState]
 
 theorem idle_holds : holdsIntents Pc.idle = false ∧ holdsState Pc.idle = false := by
   simp [holdsIntents, holdsState]
@@ -184,16 +198,13 @@ theorem step_lockInv (H : Bytes → Bytes) (s s' : Sys) (tid : Tid) (inv : LockI
       | nil => simp [hops] at h
       | cons op rest =>
         simp only [hops] at h
-        have hs := startOp_holds H op
+        have hs := startOp_holds H s.sh op
         split at h
-        · injection h with h; subst h
-          apply frame
-          · simp [hpc]
-          · simp [hpc]
-        · injection h with h; subst h
-          apply frame
-          · simp only [hpc]; rw [hs.1]; exact idle_holds.1.symm
-          · simp only [hpc]; rw [hs.2]; exact idle_holds.2.symm
+        · cases h
+        injection h with h; subst h
+        apply frame
+        · simp only [hpc]; rw [hs.1]; exact idle_holds.1.symm
+        · simp only [hpc]; rw [hs.2]; exact idle_holds.2.symm
     | _ =>
       all_goals
         simp only [hpc] at h
@@ -308,7 +319,7 @@ theorem progress (H : Bytes → Bytes) (s : Sys) (inv : LockInv s)
         simp only [hth, hidle]
         cases hops' : th.ops with
         | nil => exact absurd hops' hops
-        | cons op rest => simp only; split <;> rfl
+        | cons op rest => simp [hS]
       · apply can t th hth hidle
         simp only [enabled]
         split <;> simp [hS, hI]
